@@ -128,6 +128,13 @@ func Check(p *Program, exp *Expect, out *Outcome) ([]Finding, *Decoded) {
 		if r.K == "readfrom" {
 			continue
 		}
+		if exp.Refused[r.Op] {
+			if r.Err == "" || r.N != 0 {
+				add("write-beyond-content-length-accepted", "op %d %s of %d bytes returned (%d, %q): the declared Content-Length %d had been written completely, a further write must fail and report 0 bytes", r.Op, p.Ops[r.Op], r.In, r.N, r.Err, exp.CL)
+				break
+			}
+			continue
+		}
 		if r.Err != "" {
 			add("write-returns-error", "op %d %s of %d bytes returned (%d, %q) although the connection accepted every byte and the declared Content-Length (if any) equals the bytes written", r.Op, p.Ops[r.Op], r.In, r.N, r.Err)
 			break
